@@ -642,7 +642,7 @@ pub fn main() {
     }
     let nmax = if args.thorough() { 12 } else { 8 };
     let exh = exhaustive_cases(nmax);
-    let random_cases = args.scale(200_000, 25) as u32;
+    let random_cases = args.scale(400_000, 12) as u32;
     let strat = case_strategy();
     let acc = engine::parallel(&args, PROP, |w, workers, acc| {
         for (i, c) in exh.iter().enumerate() {
